@@ -36,7 +36,7 @@ ASSUMPTIONS = E1_ASSUMPTIONS + [
     "directory (deeper ones make 'the subdirectories of the input' self-referential)",
     "worlds where 'directly contains no .cmake file' differs before/after pattern exclusion are judged by the closure "
     "and schedule-independence clauses only, not by set equality with the reference walk"]
-PROBES = ["symlinked_cmake_file", "depth_ge_3", "empty_dir", "dir_without_cmake", "mixed_case_ext", "nonrecursive_with_subdirs",
+PROBES = ["tree_edited_between_runs", "symlinked_cmake_file", "depth_ge_3", "empty_dir", "dir_without_cmake", "mixed_case_ext", "nonrecursive_with_subdirs",
           "auto_exclude_off", "out_nested", "out_abs", "out_rel", "dotted_or_dashed_name", "patterns_present",
           "fault_fired_open_w", "fault_fired_write", "fault_fired_close_w", "fault_fired_mkdir", "fault_fired_open_r",
           "fault_run_failed", "fault_run_survived", "single_file_compared", "crash_then_rerun",
@@ -413,6 +413,49 @@ def evaluate(spec, ctx):
                     viols.append(viol("stale-output-survives-rerun",
                                       f"re-run over an output directory holding torn / longer / newer-stamped pages: "
                                       f"{diff[:5]} differ from the fault-free tree ({how})"))
+        # --- the tree is edited between two runs of the same process over the same path: one directory gains its first
+        #     CMake file, another loses its last one.  The second run must match the reference walk of the edited tree.
+        if not viols and ref_pages is not None and spec["out_kind"] != "nested" and not walk.ambiguous:
+            ch0 = refs.children(tree)
+            gain = [d for d in sorted(ch0) if d and not any(refs.is_cmake(f) for f in ch0[d][1])]
+            lose = [d for d in sorted(ch0) if d and sum(1 for f in ch0[d][1] if refs.is_cmake(f)) == 1
+                    and not isinstance(tree.get(posixpath.join(d, [f for f in ch0[d][1] if refs.is_cmake(f)][0])), dict)]
+            if gain or lose:
+                files2 = dict(spec["files"])
+                added = removed = None
+                if gain:
+                    added = posixpath.join(spec["proj"], gain[0], "zadded.cmake")
+                    files2[added] = "#[[[\n# Added between two runs.\n#]]\nfunction(zq_added a)\nendfunction()\n"
+                    core.materialise(base, {added: files2[added]})
+                if lose:
+                    victim = [f for f in ch0[lose[-1]][1] if refs.is_cmake(f)][0]
+                    removed = posixpath.join(spec["proj"], lose[-1], victim)
+                    if removed != added:
+                        del files2[removed]
+                        os.remove(os.path.join(base, removed))
+                    else:
+                        removed = None
+                spec2 = dict(spec, files=files2)
+                try:
+                    tree2, ig2, walk2 = reference(spec2, base)
+                    if not walk2.ambiguous:
+                        var0 = spec["variants"][0]
+                        r5 = run_variant(base, spec2, dict(var0, faults=[]), ctx, with_faults=False)
+                        ctx.probes["tree_edited_between_runs"] += 1
+                        got5 = created_under(r5, out)
+                        exp5 = refs.expected_outputs(walk2)
+                        if r5.status != 0:
+                            viols.append(viol("run-failed", f"run after editing the tree: status {r5.status} exc {r5.exc}"))
+                        elif got5 != exp5:
+                            viols.append(viol("stale-view-of-edited-tree",
+                                              f"after adding {added} and removing {removed} the same process wrote "
+                                              f"extra {sorted(got5 - exp5)[:5]} missing {sorted(exp5 - got5)[:5]}"))
+                finally:
+                    # restore the world for the steps below
+                    if added:
+                        os.remove(os.path.join(base, added))
+                    if removed:
+                        core.materialise(base, {removed: spec["files"][removed]})
         # --- page content == single-file rendering (apart from title / module name)
         if not viols and spec.get("single") and ref_pages is not None:
             var0 = spec["variants"][0]
@@ -464,7 +507,10 @@ MANIFEST = {
                   "or short page, never a file outside the expected set; a mkdir race must be survived with the full tree; a simulated "
                   "kill (crash) at an arbitrary open/write/close/mkdir followed by a plain re-run must yield exactly the fault-free "
                   "tree (no torn page survives a restart); persistent faults (the disk stays full) must not be retried into silence; a "
-                  "re-run over an output directory full of torn, longer or newer-stamped stale pages must restore the exact tree.",
+                  "re-run over an output directory full of torn, longer or newer-stamped stale pages must restore the exact tree; after the "
+                  "tree is edited between two runs of one process (a directory gains its first CMake file, another loses its last) the "
+                  "second run must match the reference walk of the edited tree.  Worlds include CMake files that are symbolic links and "
+                  "non-ASCII names in NFC and NFD spelling.",
     "level_note": "trusted: reference walk (30 lines) and gitignore matcher, tmpfs, libraries as installed; ambiguous worlds "
                   "(directory emptied by exclusion under auto-exclusion) are not judged by set equality",
 }
